@@ -982,7 +982,10 @@ func (interp *Interpreter) cfg(root *node, sc *scope, importPath, pkgName string
 				}
 			}
 			if c0.rval.IsValid() && c1.rval.IsValid() && (!isInterface(n.typ)) && constOp[n.action] != nil {
-				n.typ.TypeOf()       // Force compute of reflection type.
+				n.typ.TypeOf() // Force compute of reflection type.
+				if err = check.constExpr(n); err != nil {
+					break
+				}
 				constOp[n.action](n) // Compute a constant result now rather than during exec.
 			}
 			switch {
@@ -2382,6 +2385,9 @@ func (interp *Interpreter) cfg(root *node, sc *scope, importPath, pkgName string
 			// TODO: Optimisation: avoid allocation if boolean branch op (i.e. '!' in an 'if' expr)
 			if n.child[0].rval.IsValid() && !isInterface(n.typ) && constOp[n.action] != nil {
 				n.typ.TypeOf() // init reflect type
+				if err = check.constExpr(n); err != nil {
+					break
+				}
 				constOp[n.action](n)
 			}
 			switch {
